@@ -387,7 +387,7 @@ pub fn scenarios(tier: Tier) -> Vec<(String, Vec<Scenario>)> {
   //     physical byte limit (4096 for SNDBATCH_BYTES=1000), all queued before the session wakes
   let mut g = vec![];
   let alpha = [1usize, 300, 900, 3000, 5000];
-  for t in tuples(&alpha, tier.pick(5, 6)) {
+  for t in tuples(&alpha, tier.pick(5, 8)) {
     if t.len() < 2 {
       continue;
     }
@@ -408,7 +408,7 @@ pub fn scenarios(tier: Tier) -> Vec<(String, Vec<Scenario>)> {
   // (2) back-pressure: tiny HWMs, tiny link buffer (partial writes), all pacings, SNDTIMEO -1 / 0
   let mut g = vec![];
   let alpha = [0usize, 1, 300, 1300];
-  for t in tuples(&alpha, tier.pick(3, 4)) {
+  for t in tuples(&alpha, tier.pick(3, 6)) {
     for hwm in [1, 2] {
       for buf in [64usize, 1 << 16] {
         for pacing in [Pacing::Eager, Pacing::AfterSends, Pacing::Slow] {
